@@ -2,6 +2,7 @@
 #include "simb.h"
 #include <algorithm>
 #include <clocale>
+#include <fcntl.h>
 #include <cstdlib>
 #include <fstream>
 #include <functional>
@@ -16,8 +17,8 @@ uint64_t g_index = 0;
 
 std::string plan_to_text(const Plan &p) {
     char b[200]; std::string s;
-    std::snprintf(b, sizeof b, "knobs seed=%llu pool_seed=%llu sched_seed=%llu mean_gap=%u max_preemptions=%u locale=%u victim=%u victim_op=%u runner=%u offset=%u threads=%zu\n", (unsigned long long)p.seed,
-                  (unsigned long long)p.pool_seed, (unsigned long long)p.sched_seed, p.mean_gap, p.max_preemptions, p.locale, p.victim, p.victim_op, p.runner, p.offset, p.programs.size()); s += b;
+    std::snprintf(b, sizeof b, "knobs seed=%llu pool_seed=%llu sched_seed=%llu mean_gap=%u max_preemptions=%u locale=%u victim=%u victim_op=%u runner=%u offset=%u fresh=%u threads=%zu\n", (unsigned long long)p.seed,
+                  (unsigned long long)p.pool_seed, (unsigned long long)p.sched_seed, p.mean_gap, p.max_preemptions, p.locale, p.victim, p.victim_op, p.runner, p.offset, p.fresh, p.programs.size()); s += b;
     for (size_t t = 0; t < p.programs.size(); t++)
         for (const BOp &o : p.programs[t]) { std::snprintf(b, sizeof b, "op thread=%zu kind=%s a=%u b=%u c=%u fault=%u\n", t + 1, bop_name(o.kind), o.a, o.b, o.c, o.fault); s += b; }
     for (const Switch &w : p.switches) { std::snprintf(b, sizeof b, "switch event=%llu thread=%u\n", (unsigned long long)w.event, w.thread); s += b; }
@@ -40,7 +41,7 @@ bool plan_from_text(const std::string &t, Plan &p, std::string &err) {
         if (!line.compare(0, 6, "knobs ")) {
             if (kv(l, "seed", v)) p.seed = (uint64_t)v; if (kv(l, "pool_seed", v)) p.pool_seed = (uint64_t)v; if (kv(l, "sched_seed", v)) p.sched_seed = (uint64_t)v;
             if (kv(l, "mean_gap", v)) p.mean_gap = (uint32_t)v; if (kv(l, "max_preemptions", v)) p.max_preemptions = (uint32_t)v; if (kv(l, "threads", v)) p.programs.resize((size_t)v);
-            if (kv(l, "locale", v)) p.locale = (uint32_t)v; if (kv(l, "victim", v)) p.victim = (uint32_t)v; if (kv(l, "victim_op", v)) p.victim_op = (uint32_t)v; if (kv(l, "runner", v)) p.runner = (uint32_t)v; if (kv(l, "offset", v)) p.offset = (uint32_t)v;
+            if (kv(l, "locale", v)) p.locale = (uint32_t)v; if (kv(l, "fresh", v)) p.fresh = (uint32_t)v; if (kv(l, "victim", v)) p.victim = (uint32_t)v; if (kv(l, "victim_op", v)) p.victim_op = (uint32_t)v; if (kv(l, "runner", v)) p.runner = (uint32_t)v; if (kv(l, "offset", v)) p.offset = (uint32_t)v;
         } else if (!line.compare(0, 3, "op ")) {
             BOp o; size_t th = 1; if (kv(l, "thread", v)) th = (size_t)v;
             const char *k = std::strstr(l, " kind="); if (!k) { err = "op without kind"; return false; }
@@ -88,6 +89,7 @@ Plan gen_plan(uint64_t runseed) {
         p.offset = r.below(3) ? 1 + r.below(60) : 1 + r.below(3000);
         if (r.below(2)) p.programs[p.runner - 1][0].kind = p.programs[p.victim - 1][p.victim_op].kind;      // same kind on both sides half of the time
     }
+    p.fresh = r.below(4) == 0;      // (drawn last: the plans of earlier versions are unchanged)
     return p;
 }
 
@@ -162,6 +164,17 @@ RunResult run_plan(const Plan &p, Totals *tot) {
         }
         priv_delete(priv);
     }
+    // the stricter reading of "the same results it obtains when run alone": alone in a process of its own, where nothing another thread did - or
+    // left behind in a memo, a cache, a lazily built table - can have played a part.  (The in-process reference above runs after the concurrent
+    // phase and shares whatever process-wide state that phase built up.)
+    if (!p.expected.empty() && !V.set)
+        for (size_t t = 0; t < n && t < p.expected.size() && !V.set; t++)
+            for (size_t i = 0; i < p.programs[t].size() && i < p.expected[t].size(); i++)
+                if (S.digests[t][i] != p.expected[t][i]) {
+                    V.set = true; V.cls = "result_divergence"; V.site = std::string("diverge(") + bop_name(p.programs[t][i].kind) + ")";
+                    V.msg = "thread " + std::to_string(t + 1) + " op #" + std::to_string(i) + " (" + bop_name(p.programs[t][i].kind) + ") produced a different result next to the other threads than the same program produces alone in a process of its own";
+                    break;
+                }
     { simrt::SutScope sut; pool_destroy(S.pool); }
     size_t live = simrt::heap_end_run(); (void)live;
     char d[200]; simrt::HeapViolation hv = simrt::heap_take_violation(d, sizeof d);
@@ -203,7 +216,36 @@ extern "C" void __gcov_dump(void);
 struct Outcome { std::string cls, site, msg; bool violated = false; std::vector<Switch> recorded; };
 // every plan execution happens in a forked child: function-local statics and lazily built tables are fresh, so
 // first-use races are visible in every run, and a corrupted process cannot influence the next run
-static Outcome run_forked(const Plan &p, std::string *line_out = nullptr, Totals *tot = nullptr) {
+// one thread's program, alone, in a process of its own: digests through a pipe (empty on any trouble: then that reference is simply not used)
+static std::vector<uint64_t> solo_in_own_process(const Plan &p, size_t t) {
+    std::vector<uint64_t> d; int fd[2];
+    if (pipe(fd) != 0) return d;
+    std::fflush(stdout);
+    pid_t pid = fork();
+    if (pid == 0) {
+        close(fd[0]); alarm(30);
+        { int nul = open("/dev/null", O_WRONLY); if (nul >= 0) { dup2(nul, 1); close(nul); } }      // a fatal event here is not a verdict: the reference is then not used
+        simrt::heap_begin_run(simrt::HEAP_IMMEDIATE, 0xA5, 0xDD);
+        if (p.locale) { if (!std::setlocale(LC_ALL, "C.UTF-8")) std::setlocale(LC_ALL, "C.utf8"); }
+        std::vector<uint64_t> out;
+        {
+            simrt::SutScope sut;
+            void *pool = pool_build(p.pool_seed); void *priv = priv_new(pool);
+            out.reserve(p.programs[t].size());      // (nothing of the harness allocates while a fault plan is armed)
+            for (const BOp &o : p.programs[t]) { simrt::heap_op_begin(o.fault); const uint64_t dg = do_op(pool, priv, o); simrt::heap_op_end(); out.push_back(dg); }
+        }
+        ssize_t w = write(fd[1], out.data(), out.size() * sizeof(uint64_t)); (void)w;
+        _exit(0);
+    }
+    close(fd[1]);
+    uint64_t v; while (read(fd[0], &v, sizeof v) == (ssize_t)sizeof v) d.push_back(v);
+    close(fd[0]); int st = 0; waitpid(pid, &st, 0);
+    if (!WIFEXITED(st) || WEXITSTATUS(st) != 0 || d.size() != p.programs[t].size()) d.clear();
+    return d;
+}
+static Outcome run_forked(const Plan &p0, std::string *line_out = nullptr, Totals *tot = nullptr) {
+    Plan p = p0;
+    if (p.fresh) { p.expected.resize(p.programs.size()); for (size_t t = 0; t < p.programs.size(); t++) p.expected[t] = solo_in_own_process(p, t); }
     Outcome out; int fd[2];
     if (pipe(fd) != 0) { out.cls = "infra"; return out; }
     std::fflush(stdout);
